@@ -1,4 +1,4 @@
-import Driver.Ops
+import Driver.Io
 open FV Drv
 
 partial def loop (h : IO.FS.Stream) (out : IO.FS.Stream) (types : Array Ty) : IO Unit := do
@@ -56,6 +56,29 @@ partial def loop (h : IO.FS.Stream) (out : IO.FS.Stream) (types : Array Ty) : IO
     let r := match parseOp rest with
       | some op => runO t a16.toNat! (parseHex pre) op
       | none => "BAD-OP"
+    out.putStrLn r
+    loop h out types
+  | k :: tid :: max :: script :: rest =>
+    let t := types[tid.toNat!]?.getD (.prim 0 1)
+    let initsOf (ws : List String) : Option (List Init) :=
+      ((" ".intercalate ws).splitOn "|").mapM fun x => match parseInit (tokenize x) with | some (i, []) => some i | _ => none
+    let r :=
+      if k == "S" || k == "AS" then
+        match initsOf rest with
+        | some is => runS t max.toNat! (parseScript script) is (k == "AS")
+        | none => "BAD-INIT"
+      else if k == "R" || k == "AR" then
+        match rest with
+        | [nrecv, stream] => if k == "R" then runR t max.toNat! (parseScript script) nrecv.toNat! (parseHex stream)
+                             else runAR t max.toNat! (parseScript script) nrecv.toNat! (parseHex stream)
+        | _ => "BAD-LINE"
+      else if k == "AP" then
+        -- AP tid max pipecap wchunk rchunk pend schedule inits…  (`script` holds pipecap)
+        match initsOf (rest.drop 4) with
+        | some is => runAP t max.toNat! is
+        | none => "BAD-INIT"
+      else if k == "W" then "-"
+      else "?"
     out.putStrLn r
     loop h out types
   | _ =>
